@@ -43,18 +43,29 @@ const vpNS = "ns"
 
 // ---------------------------------------------------------------- key mutex
 
-type vpKeyMutex struct{ held map[string]bool }
+type vpKeyMutex struct {
+	w    *vpWorld
+	held map[string]int // key -> logical thread holding it
+}
 
 func (m *vpKeyMutex) LockKey(id string) {
 	if m.held == nil {
-		m.held = map[string]bool{}
+		m.held = map[string]int{}
 	}
-	verifAssert("C18/self-deadlock?", !m.held[id], "a key lock is acquired twice by the same operation (self-deadlock)")
-	m.held[id] = true
+	me := 1
+	if m.w != nil {
+		me = m.w.thread
+	}
+	if owner, ok := m.held[id]; ok {
+		// held by the other logical thread: this interleaving cannot happen here (the caller would wait)
+		verifAssume(owner == me)
+		verifAssert("C18/self-deadlock?", false, "a key lock is acquired twice by the same operation (self-deadlock)")
+	}
+	m.held[id] = me
 }
 
 func (m *vpKeyMutex) UnlockKey(id string) error {
-	if !m.held[id] {
+	if _, ok := m.held[id]; !ok {
 		return fmt.Errorf("unlock of unlocked key %s", id)
 	}
 	delete(m.held, id)
@@ -99,18 +110,35 @@ type vpWorld struct {
 	provider    *vpProvider
 	podLocks    *vpKeyMutex
 	dpLocks     *vpKeyMutex
-	window      func(kind, name string) // interference window (one shot)
+	// interference (DESIGN.md §3.7 2a): another whole operation runs atomically inside one window of the outer
+	// operation; windows are the points right before and right after every API-server call
+	interferer func()
+	windowAt   int // symbolic: the index of the window in which the interferer runs (0 = never)
+	winCount   int
+	thread     int
 
 	lateEventActive bool // an event of an earlier incarnation is being handled while a same-named live pod with another UID exists
 	lateEventSeen   bool // ... has happened at some point of this history
 }
 
-func (w *vpWorld) tick(kind, name string) error {
-	if w.window != nil {
-		f := w.window
-		w.window = nil
-		f(kind, name)
+func (w *vpWorld) windowPoint() {
+	if w.interferer == nil {
+		return
 	}
+	w.winCount++
+	if w.windowAt == w.winCount {
+		f := w.interferer
+		w.interferer = nil
+		w.thread = 2
+		verifThread(2)
+		f()
+		verifThread(1)
+		w.thread = 1
+	}
+}
+
+func (w *vpWorld) tick(kind, name string) error {
+	w.windowPoint()
 	w.calls++
 	if w.faultAt == w.calls {
 		w.faulted = true
@@ -210,6 +238,7 @@ func (c *vpConfigMaps) Get(ctx context.Context, name string, opts metav1.GetOpti
 	if err := c.w.tick("configmaps.get", name); err != nil {
 		return nil, err
 	}
+	defer c.w.windowPoint()
 	return &corev1.ConfigMap{Data: map[string]string{"floatingips": c.w.configMap}}, nil
 }
 
@@ -385,6 +414,9 @@ func vpNewWorld(topo int, withProvider bool) *vpWorld {
 		podLocks: &vpKeyMutex{}, dpLocks: &vpKeyMutex{}}
 	_, w.ips, _ = floatingip.VTopology(topo)
 	w.store.Tick = w.tick
+	w.store.After = func(kind, name string) { w.windowPoint() }
+	w.thread = 1
+	w.podLocks.w, w.dpLocks.w = w, w
 	// n1 and n5 lie in 10.0.1.0/24 (listed by every topology), n2 in 10.0.2.0/24, n3 in no node subnet, n4 in the /32 subnet of topology 2
 	w.nodes = map[string]*corev1.Node{"n1": vpNode("n1", "10.0.1.5"), "n2": vpNode("n2", "10.0.2.5"), "n3": vpNode("n3", "10.0.9.9"), "n4": vpNode("n4", "10.0.3.3"), "n5": vpNode("n5", "10.0.1.6")}
 	p := &FloatingIPPlugin{
@@ -758,3 +790,6 @@ func (w *vpWorld) invProvider() bool {
 	}
 	return ok
 }
+
+
+func vpIP(s string) net.IP { return net.ParseIP(s) }
